@@ -10,6 +10,7 @@ from typing import Any, Dict, List, Optional, Tuple
 
 from harness.extract import nondet as x_nondet
 from harness.extract import nondet_seeding as x_seeding
+from harness.extract import sharedstate as x_shared  # C04's extractor, imported read-only
 from harness.lib import scen
 from harness.lib.core import REPO, SRC, VERIF, Ctx, Rng, lean_lock, run_driver
 from harness.rigs import envrig, xproc
@@ -236,6 +237,56 @@ def generated_variant(rng: Rng) -> Dict:
     return cfg
 
 
+NMNE_ALL = {"capture_nmne": True, "nmne_capture_keywords": ["DELETE", "SELECT", "INSERT", "UPDATE", "ENCRYPT"]}
+
+
+def contrast_cfg(cfg: Dict, rng: Rng) -> Dict:
+    """The same scenario with every OPTIONAL process-wide setting at a NON-default value that differs from the case's: NMNE capture
+    switched on with every keyword (off if the case has it on), other observation thresholds, other airspace capacities, another seed,
+    another episode length. Played in the same interpreter BEFORE the case (process history)."""
+    c = copy.deepcopy(cfg)
+    net = c.setdefault("simulation", {}).setdefault("network", {})
+    cur = net.get("nmne_config") or {}
+    net["nmne_config"] = {"capture_nmne": False} if cur.get("capture_nmne") and rng.chance(1, 3) else dict(NMNE_ALL)
+    net["airspace"] = {"frequency_max_capacity_mbps": {"WIFI_2_4": 12.5, "WIFI_5": 37.5}}
+    g = c.setdefault("game", {})
+    g["thresholds"] = {"nmne": {"high": 3, "medium": 2, "low": 1}, "file_access": {"high": 4, "medium": 2, "low": 1},
+                       "app_executions": {"high": 4, "medium": 2, "low": 1}}
+    g["seed"] = rng.range(2, 10 ** 6)
+    g["max_episode_length"] = 17
+    return c
+
+
+def defaults_variant(cfg: Dict) -> Dict:
+    """The scenario with every optional process-wide section LEFT OUT (no nmne_config, no airspace capacities, no thresholds): whatever
+    the code derives from a missing section must be the default, not what an earlier game of the process left behind. Scripted attackers
+    start early so that their traffic (the DELETE query NMNE capture looks for) falls inside the short episodes."""
+    c = copy.deepcopy(cfg)
+    net = c.get("simulation", {}).get("network", {})
+    net.pop("nmne_config", None)
+    net.pop("airspace", None)
+    c.get("game", {}).pop("thresholds", None)
+    for a in c.get("agents", []):
+        st = a.get("agent_settings") or {}
+        if a.get("type") in ("red-database-corrupting-agent", "periodic-agent") and "start_step" in st:
+            st.update(start_step=2, frequency=3, variance=1)
+            st.pop("start_variance", None)
+    return c
+
+
+def warm_specs(cfg: Dict, rng: Rng) -> List[Dict]:
+    """The process histories of a case: [0] the contrast scenario (built, stepped, reset, closed), [1] the shipped data_manipulation
+    scenario (NMNE capture on, DELETE keyword)."""
+    import yaml
+    out = [{"cfg_yaml": yaml.safe_dump(contrast_cfg(cfg, rng), sort_keys=False), "steps": 3, "reset": True}]
+    shipped = scen.shipped()
+    if "data_manipulation" in shipped:
+        dm = scen.load_cfg(shipped["data_manipulation"])
+        dm.setdefault("game", {})["seed"] = rng.range(2, 10 ** 6)
+        out.append({"cfg_yaml": yaml.safe_dump(dm, sort_keys=False), "steps": 4, "reset": False})
+    return out
+
+
 def cases(ctx: Ctx, search: bool = False):
     """(name, variant, cfg, ops). `search` = the extra family run when an inventory obligation is broken."""
     shipped = scen.shipped()
@@ -264,6 +315,23 @@ def cases(ctx: Ctx, search: bool = False):
                     aug = _small_scan(aug)
                     yield name, "generated-map", aug, gen_ops(rng.fork(name + "-augops"), _n_actions(aug), ctx.scale(8, 30), aug["game"]["seed"],
                                                               ctx.scale(0, 1))
+    # the same scenarios with every optional process-wide section left out (played after a history that set them)
+    if not search:
+        for name in (["data_manipulation"] if not ctx.thorough else ["data_manipulation", "uc7_config", "action_penalty", "shared_rewards",
+                                                                      "extended_config", "test_application_install"]):
+            if name not in shipped:
+                continue
+            try:
+                cfg = defaults_variant(envrig.with_proxy(scen.load_cfg(shipped[name])))
+                scen.make_game(cfg)
+            except Exception as e:
+                ctx.notes.append(f"{name}: defaults variant not built: {type(e).__name__}: {str(e)[:120]}")
+                continue
+            cfg.setdefault("game", {})["seed"] = rng.range(2, 10 ** 6)
+            r = rng.fork(name + "-defaults")
+            k = ctx.scale(10, 24)
+            acts = [r.below(_n_actions(cfg)) if r.chance(1, 4) else 0 for _ in range(k)]  # mostly do-nothing: let the scripted traffic through
+            yield name, "defaults-after-history", cfg, acts + [["reset", cfg["game"]["seed"]]] + acts + [["reset", None]] + acts[:k // 2]
     # threat-actor agents with stochastic settings (uc7), and a generated scenario with a random agent + nmap + database + web
     n_tap = ctx.scale(1, 3) if not search else 2
     for name in ("uc7_config", "uc7_config_tap003"):
@@ -299,7 +367,9 @@ def variants(ctx: Ctx, rng: Rng, cfg: Optional[Dict] = None, n_extra: int = 0) -
         seeds, info = xproc.pick_hashseeds(xproc.string_vocabularies(cfg), n, cands)
     else:
         seeds = cands[:n]
-    return [{"hashseed": hs, "loud": (i % 2 == 1)} for i, hs in enumerate(seeds)], info
+    # worker 0 starts fresh; the others have a PROCESS HISTORY (xproc: warm-ups played in the same interpreter before the case)
+    hist = [[], [0], [1, 0], [1], [0, 1], [], [0]]
+    return [{"hashseed": hs, "loud": (i % 2 == 1), "warm": hist[i % len(hist)]} for i, hs in enumerate(seeds)], info
 
 
 def episodes_of(lines: List[str]) -> List[List[str]]:
@@ -370,9 +440,12 @@ def reseed_oracle(name: str, variant: str, cfg: Dict, ops: List[Any], base_v: Di
     return viol, cnt
 
 
-def check_case(name: str, variant: str, cfg: Dict, ops: List[Any], vs: List[Dict]) -> Tuple[List[dict], Dict[str, int], List[str]]:
+def check_case(name: str, variant: str, cfg: Dict, ops: List[Any], vs: List[Dict], warm: Optional[List[Dict]] = None
+               ) -> Tuple[List[dict], Dict[str, int], List[str]]:
     """Run the workers; returns (violations, counters, base lines)."""
-    res = xproc.run_workers({"cfg": cfg, "ops": ops}, vs, REPO, VERIF)
+    warm = warm or []
+    vs = [dict(v, warm=[i for i in (v.get("warm") or []) if i < len(warm)]) for v in vs]
+    res = xproc.run_workers({"cfg": cfg, "ops": ops, "warm": warm}, vs, REPO, VERIF)
     viol: List[dict] = []
     cnt = {"workers": len(res), "lines": 0, "raised": 0}
     base_v, base, base_err = res[0]
@@ -391,15 +464,23 @@ def check_case(name: str, variant: str, cfg: Dict, ops: List[Any], vs: List[Dict
         b = lines[d] if d < len(lines) else "<stream ended>"
         desc = xproc.describe_diff(a, b) if d < len(base) and d < len(lines) else {"part": "length"}
         sig = {"kind": "cross-process-diff", **{k: desc[k] for k in ("part", "action", "field") if k in desc}}
-        viol.append({"sig": sig, "what": f"{name}/{variant}: line {d} differs between {base_v} and {v}: {desc}; "
+        if (v.get("warm") or []) != (base_v.get("warm") or []):
+            sig["history"] = "differs"   # the two interpreters also differ in what they ran BEFORE the case
+        viol.append({"sig": sig, "what": f"{name}/{variant}: line {d} differs between {_vshort(base_v)} and {_vshort(v)}: {desc}; "
                                         f"{_excerpt(a, b)}",
-                     "replay": {"scenario": name, "variant": variant, "cfg": cfg, "ops": ops, "variants": [base_v, v], "first_diff": d,
+                     "replay": {"scenario": name, "variant": variant, "cfg": cfg, "ops": ops, "variants": [base_v, v], "warm": warm, "first_diff": d,
                                 "a": a[:4000], "b": b[:4000], "stderr": err[-500:]}})
         break
+    cnt["workers-with-history"] = sum(1 for v, _, _ in res if v.get("warm"))
     rv, rc = reseed_oracle(name, variant, cfg, ops, base_v, base)
     viol += rv
     cnt.update(rc)
     return viol, cnt, base
+
+
+def _vshort(v: Dict) -> str:
+    h = v.get("warm") or []
+    return f"{{hashseed {v.get('hashseed')}, {'loud' if v.get('loud') else 'quiet'}, history {h if h else 'none (fresh)'}}}"
 
 
 def _excerpt(a: str, b: str) -> str:
@@ -663,7 +744,7 @@ def replay(rec: dict) -> bool:
         from primaite.utils.validation.port import PORT_LOOKUP
         model = run_driver(EXE, [rp["line"]])
         return model and model[0] == _site_impl(rp["site_case"], None, PORT_LOOKUP)
-    spec = {"cfg": rp["cfg"], "ops": rp["ops"]}
+    spec = {"cfg": rp["cfg"], "ops": rp["ops"], "warm": rp.get("warm") or []}
     if "probe" in rp:
         spec["probe"] = rp["probe"]
     res = xproc.run_workers(spec, rp["variants"], REPO, VERIF)
@@ -691,10 +772,11 @@ def run_cases(ctx: Ctx, all_cases, tag: str = "xproc") -> int:
     with cf.ThreadPoolExecutor(ctx.scale(4, 5)) as ex:
         futs = [(c, ex.submit(check_case, *c)) for c in all_cases]
         for c, fu in futs:
-            name, variant, cfg, ops, vs = c
+            name, variant, cfg, ops, vs = c[:5]
             viol, cnt, base = fu.result()
             ctx.count(f"{tag}:cases")
             ctx.count(f"{tag}:workers", cnt["workers"])
+            ctx.count(f"{tag}:workers-with-process-history", cnt.get("workers-with-history", 0))
             ctx.count(f"{tag}:case-ended-by-exception", cnt["raised"])
             for k, v in cnt.items():
                 if k.startswith("reseed:"):
@@ -736,6 +818,7 @@ def run(ctx: Ctx):
     with lean_lock():
         ok_x = ctx.extract("Nondet", x_nondet.emit)
         ok_s = ctx.extract("NondetSeeding", x_seeding.emit)
+        ctx.extract("SharedState", x_shared.emit)
         proved = ctx.prove(MODULES, exes=[EXE], leanchecker=ctx.thorough)
     mark("extract+prove")
     # -- the inventory, as seen by the extractor and by an independent textual count
@@ -789,11 +872,12 @@ def run(ctx: Ctx):
         all_cases.append(("corpus:" + f.name, c.get("variant", "-"), cfg, c["ops"], c["variants"]))
     vr = ctx.rng.fork("variants")
     hs_info: Dict[str, int] = {"vocabularies": 0, "distinguished": 0, "pairwise_all_differ": 0}
+    wr = ctx.rng.fork("warm")
     for name, variant, cfg, ops in cases(ctx):
         vs, info = variants(ctx, vr, cfg)
         for k in hs_info:
             hs_info[k] += info.get(k, 0)
-        all_cases.append((name, variant, cfg, ops, vs))
+        all_cases.append((name, variant, cfg, ops, vs, warm_specs(cfg, wr.fork(name + variant))))
     ctx.cov["hashseed_selection"] = hs_info
     mark("case-generation+hashseed-selection")
     with cf.ThreadPoolExecutor(1) as ex0:
@@ -818,7 +902,7 @@ def run(ctx: Ctx):
         sr = ctx.rng.fork("search-variants")
         for name, variant, cfg, ops in cases(ctx, search=True):
             vs, _ = variants(ctx, sr, cfg, n_extra=2)
-            extra.append((name, "search:" + variant, cfg, ops, vs))
+            extra.append((name, "search:" + variant, cfg, ops, vs, warm_specs(cfg, sr.fork(name + variant))))
         ctx.notes.append(f"search: {len(new_sites)} site(s) not in the committed table ({[s[:3] for s in new_sites][:4]}); "
                          f"ran {len(extra)} further cases with 5 interpreters each")
         run_cases(ctx, extra, tag="search")
